@@ -137,7 +137,9 @@ func (un *Unit) execCall(fr *Frame, st *State, c *ssa.CallCommon, instr ssa.Inst
 				return un.havocResults(st, sig, "call")
 			}
 			un.safety(st, fr, "nil-func", p.Name(), not(eq(fv.t, "0")), pos)
-			return un.applyContract(fr, st, fs, sigNames(sig, fs), sig, args, p.Name(), pos)
+			names := append([]string{"this"}, sigNames(sig, fs)...)
+			all := append([]Val{{t: fv.t, typ: sig}}, args...)
+			return un.applyContract(fr, st, fs, names, sig, all, p.Name(), pos)
 		}
 	}
 	if p, ok := c.Value.(*ssa.Parameter); ok {
@@ -318,13 +320,16 @@ func (un *Unit) callStatic(fr *Frame, st *State, callee *ssa.Function, binds []V
 	return un.havocResults(st, sig, callee.Name())
 }
 
+// onStack: true recursion guard; a function may be re-entered through a callback (WithKeyFunc inside WithKeyFunc), so up to
+// three activations are allowed.
 func (un *Unit) onStack(fr *Frame, fn *ssa.Function) bool {
+	n := 0
 	for f := fr; f != nil; f = f.parent {
 		if f.fn == fn {
-			return true
+			n++
 		}
 	}
-	return false
+	return n >= 3
 }
 
 func paramNames(fn *ssa.Function, sig *types.Signature, fc *FuncContract) []string {
